@@ -36,7 +36,7 @@ CLAIMED = {
          'Theorems C11_* (coq/props/C11.v). any chunk size >= 1 and any completion order give the serial result, the regenerated chunk-size expression is >= 1, compression independence from the pre-filter theorem, top-m contract, and the regenerated float64 radius admits every on-radius pair (C04_radius re-checked here). The scheduler part is partial: the theorem covers every schedule of the modelled pool; that CPython Pool.map meets the contract and fork inheritance are runtime behaviour exercised (not proved) with real processes.',
          COMMON_NOTE + 'multiprocessing.Pool.map ordered-result contract, fork start method, rapidfuzz extract ordering.', 'DESIGN.md section 4 C11'),
  'C12': ('Coq proof that the one-edit generators (with their duplicate-suppression rules) yield exactly the distance-1 strings, each once; BFS closure / next-nearest / set utilities characterised; list-level differential runs (order and duplicates visible)',
-         'Theorems C12_* (coq/props/C12.v): levenshtein_neighbors model exact and NoDup for any duplicate-free alphabet, hamming_neighbors for any position list, next_nearest = strings within 1..m steps, find_pairs lists each unordered pair once, neighbor numbers, isdist1; the enumeration loops of _isdist2_hamming / _isdist3_hamming and the cascade of nndist_hamming are modelled and proved equal to the capped minimum (C12_nndist); the source text of levenshtein_neighbors, hamming_neighbors, _isdist2_hamming, _isdist3_hamming is regenerated into Gallina on every run and proved equal, as lists, to the models (C12_source_*, coq/props/C12g.v).',
+         'Theorems C12_* (coq/props/C12.v): levenshtein_neighbors model exact and NoDup for any duplicate-free alphabet, hamming_neighbors for any position list, next_nearest = strings within 1..m steps, find_pairs lists each unordered pair once, neighbor numbers, isdist1; the enumeration loops of _isdist2_hamming / _isdist3_hamming and the cascade of nndist_hamming are modelled and proved equal to the capped minimum (C12_nndist); the source text of levenshtein_neighbors, hamming_neighbors, _isdist2_hamming, _isdist3_hamming is regenerated into Gallina on every run and proved equal, as lists, to the models (C12_source_*, coq/props/C12g.v); isdist1, calculate_neighbor_numbers and the nndist_hamming cascade as written (coq/props/C12h.v); next_nearest_neighbors, find_neighbor_pairs and find_neighbor_pairs_index as written, for every set iteration order (coq/props/C12i.v).',
          COMMON_NOTE + 'Python generator/set semantics; nndist_hamming for references over the amino-acid letters (its documented alphabet).', 'DESIGN.md section 4 C12'),
  'C14': ('Coq proof: every engine model with a custom distance keeps a pair iff lev <= k and custom <= max (generic in the distance), TCRdist glue exact for any tables / CDR3 distance, bundled V tables symmetric with zero diagonal by vm_compute on literals regenerated from the CSVs; differential runs with six custom distances and a vendored pwseqdist stand-in',
          'Theorems C14_* (coq/props/C14.v). Partial for TCRdist: real pwseqdist is absent; what is decided is the glue around it (candidate search, table lookup by row allele, chain sums, threshold, empty result).',
